@@ -136,7 +136,7 @@ func groupCPU(pgid int) (int64, int) {
 // Run executes grog with the given arguments.
 func (m *Machine) Run(args []string, o RunOpts) *Result {
 	if o.Timeout == 0 {
-		o.Timeout = 120 * time.Second
+		o.Timeout = 60 * time.Second
 	}
 	ctx := context.Background()
 	cmd := exec.CommandContext(ctx, m.Bin, args...)
